@@ -6,7 +6,7 @@ p = os.path.join(V, "DESIGN.md")
 s = open(p).read()
 for i in range(1, 21):
     pid = "C%02d" % i
-    n = len(re.findall(r"^(?:Theorem|Lemma|Corollary)\s", open(os.path.join(V, "coq", "Props", pid + ".v")).read(), re.M))
+    n = len(re.findall(r"^\s*(?:Theorem|Lemma|Corollary)\s", open(os.path.join(V, "coq", "Props", pid + ".v")).read(), re.M))
     s, k = re.subn(r"^(\| %s \| )\d+" % pid, r"\g<1>%d" % n, s, count=1, flags=re.M)
     print(pid, n, "updated" if k else "row not found")
 open(p, "w").write(s)
